@@ -143,6 +143,11 @@ Definition edge_valid (n : Z) (e : list Z) : bool :=
 Definition class_of_loaded (r : raw) : option string :=
   instanciate_class (compute_dimensionality (isnil (rC r)) (isnil (rF r)) (negb (existsb (edge_valid (zlen (rV r))) (rE r)))).
 
+(* load(path, dim=d): the explicit dimension is a lower bound, never a cap (max with the dimensionality of the data) *)
+Definition class_of_loaded_dim (d : option Z) (r : raw) : option string :=
+  instanciate_class (instanciate_dim d
+    (compute_dimensionality (isnil (rC r)) (isnil (rF r)) (negb (existsb (edge_valid (zlen (rV r))) (rE r))))).
+
 (* edges designated by the keys of hard_edges: mesh.edges[e]; None = IndexError *)
 Definition hard_edge_list (m : mesh) (ks : list Z) : option (list (Z * Z)) := omap (fun k => py_nth (mE m) k) ks.
 
